@@ -57,6 +57,15 @@ DtypeCases(dt, shape) ==
 AxisVals(r) == (-(r + 1))..r
 AxesLists(r, n) == UNION {[1..k -> AxisVals(r)] : k \in 1..n}
 
+P(c) == PrintT(<<"CASE", ToJson(c)>>)
+\* an axis value at the edge of the 64-bit range is out of range for every tensor: refused, whatever arithmetic the check uses
+ExtremeAxisCases(shape) ==
+   \A k \in 1..Len(ExtremeI64) : LET e == ExtremeI64[k] X == Iota("f32", shape, 0) IN
+      /\ P(CaseRec("flatten", "Flatten", <<AI("axis", e)>>, <<X>>, MustError, <<"invalid", "extreme_axis">>))
+      /\ P(CaseRec("squeeze", "Squeeze", <<>>, <<X, T("i64", <<1>>, <<e>>)>>, MustError, <<"invalid", "extreme_axis">>))
+      /\ P(CaseRec("unsqueeze", "Unsqueeze", <<>>, <<X, T("i64", <<1>>, <<e>>)>>, MustError, <<"invalid", "extreme_axis">>))
+      /\ (Len(shape) >= 1 => P(CaseRec("squeeze", "Squeeze", <<>>, <<X, T("i64", <<2>>, <<Fin(0), e>>)>>, MustError, <<"invalid", "extreme_axis">>)))
+
 Init ==
    \/ ("reshape" \in Fams /\ st \in [fam : {"reshape"}, shape : {s \in InShapes : Len(s) <= ReshapeRank}, target : Targets, done : {FALSE}])
    \/ ("reshape" \in Fams /\ st \in [fam : {"reshape0"}, shape : {s \in InShapes : Len(s) <= 2}, v : TargetVals \cup {5}, done : {FALSE}])
@@ -66,7 +75,6 @@ Init ==
    \/ ("shape" \in Fams /\ st \in [fam : {"shape"}, shape : InShapes, done : {FALSE}])
    \/ ("dtypes" \in Fams /\ st \in [fam : {"dtypes"}, dt : AllDTypes, shape : DtShapes, done : {FALSE}])
 
-P(c) == PrintT(<<"CASE", ToJson(c)>>)
 
 Emit ==
    /\ ~st.done
@@ -78,7 +86,7 @@ Emit ==
                                   /\ \A axes \in AxesLists(Len(st.shape), AxesLen) : P(SqueezeCase(st.shape, axes, FALSE))
         [] st.fam = "unsqueeze" -> \A axes \in AxesLists(Len(st.shape) + 1, MinI(AxesLen, 5 - Len(st.shape))) :
                                       (Len(axes) > 1 => Range(axes) \subseteq AxisVals(Len(st.shape) + Len(axes))) => P(UnsqueezeCase(st.shape, axes))
-        [] st.fam = "shape"    -> P(ShapeCase(st.shape, "f32"))
+        [] st.fam = "shape"    -> P(ShapeCase(st.shape, "f32")) /\ (Len(st.shape) <= 2 => ExtremeAxisCases(st.shape))
         [] st.fam = "dtypes"   -> \A i \in 1..5 : P(DtypeCases(st.dt, st.shape)[i])
    /\ st' = [st EXCEPT !.done = TRUE]
 Next == Emit
